@@ -480,7 +480,7 @@ ExecNode(n, st) ==
 
 \* every block tag of a template, outermost first, found through every body
 RECURSIVE BlocksIn(_), ExtendsIn(_)
-Bodies(n) ==
+SubBodies(n) ==
   CASE n.k \in {"capture", "with", "macro", "block", "liquid"} -> <<n.body>>
     [] n.k \in {"if", "unless"} -> <<n.body>> \o [j \in DOMAIN n.elifs |-> n.elifs[j].body] \o (IF n.else.has THEN <<n.else.body>> ELSE <<>>)
     [] n.k = "case" -> [j \in DOMAIN n.whens |-> n.whens[j].body] \o (IF n.else.has THEN <<n.else.body>> ELSE <<>>)
@@ -491,11 +491,11 @@ FlatCat(ss) == IF ss = <<>> THEN <<>> ELSE ss[1] \o FlatCat(Tail(ss))
 BlocksIn(nodes) ==
   FlatCat([i \in DOMAIN nodes |->
      (IF nodes[i].k = "block" THEN <<nodes[i]>> ELSE <<>>)
-     \o FlatCat([j \in DOMAIN Bodies(nodes[i]) |-> BlocksIn(Bodies(nodes[i])[j])])])
+     \o FlatCat([j \in DOMAIN SubBodies(nodes[i]) |-> BlocksIn(SubBodies(nodes[i])[j])])])
 ExtendsIn(nodes) ==
   FlatCat([i \in DOMAIN nodes |->
      (IF nodes[i].k = "extends" THEN <<nodes[i]>> ELSE <<>>)
-     \o FlatCat([j \in DOMAIN Bodies(nodes[i]) |-> ExtendsIn(Bodies(nodes[i])[j])])])
+     \o FlatCat([j \in DOMAIN SubBodies(nodes[i]) |-> ExtendsIn(SubBodies(nodes[i])[j])])])
 
 \* what the parser refuses when a template is loaded: an endblock that names
 \* another block ("" = the template parses)
